@@ -176,6 +176,90 @@ fn observe<T: Node + ?Sized>(access: &'static Access, stack: &[Box<dyn Level>]) 
     Obs { len: access.len(), bytes, owned, shared, live, live_deref }
 }
 
+/// Raw accesses of one op line, normalised to offsets from `base`.
+#[derive(Debug, Clone, PartialEq, Eq)]
+pub enum Acc {
+    Realloc { at_base: bool, old: usize, new: usize },
+    Move { dst: i64, src: i64, n: usize },
+}
+
+pub fn start_trace() {
+    star_frame::verif_hooks::RAW_TRACE.with_borrow_mut(|t| *t = Some(vec![]));
+}
+pub fn take_trace(base: usize) -> Vec<Acc> {
+    use star_frame::verif_hooks::RawAccess;
+    let raw = star_frame::verif_hooks::RAW_TRACE.with_borrow_mut(|t| t.take()).unwrap_or_default();
+    raw.into_iter()
+        .map(|a| match a {
+            RawAccess::Realloc { data, old_len, new_len } => Acc::Realloc { at_base: data == base, old: old_len, new: new_len },
+            RawAccess::Move { dst, src, len } => Acc::Move { dst: dst as i64 - base as i64, src: src as i64 - base as i64, n: len },
+        })
+        .collect()
+}
+pub fn acc_str(acc: &[Acc]) -> String {
+    if acc.is_empty() {
+        return "-".into();
+    }
+    acc.iter()
+        .map(|a| match a {
+            Acc::Realloc { old, new, .. } => format!("r:{old}:{new}"),
+            Acc::Move { dst, src, n } => format!("m:{dst}:{src}:{n}"),
+        })
+        .collect::<Vec<_>>()
+        .join(",")
+}
+
+/// C03 gates on one op line's trace. Returns (class, detail) of the first violation.
+pub fn check_trace(acc: &[Acc], access: &Access, len_before: usize, len_after: usize, is_err: bool) -> Option<(&'static str, String)> {
+    let cap = access.cap() as i64;
+    let log = access.realloc_log.borrow().clone();
+    let mut li = 0usize;
+    let mut cur = len_before;
+    let owned = len_before.max(len_after) as i64;
+    let mut failed_realloc_at: Option<usize> = None;
+    for (i, a) in acc.iter().enumerate() {
+        if let Some(j) = failed_realloc_at {
+            return Some(("raw_access_out_of_allocation", format!("access #{i} follows the refused / over-limit realloc #{j} in the same op")));
+        }
+        match a {
+            Acc::Realloc { at_base, old, new } => {
+                if !at_base {
+                    return Some(("raw_access_out_of_allocation", format!("realloc #{i} of a buffer that does not start at the data start")));
+                }
+                let ok = match log.get(li) {
+                    Some((o, n, ok)) if o == old && n == new => *ok,
+                    _ => return Some(("raw_access_out_of_allocation", format!("realloc #{i} r:{old}:{new} does not match the data access's own log {log:?}"))),
+                };
+                li += 1;
+                if ok {
+                    cur = *new;
+                } else {
+                    failed_realloc_at = Some(i);
+                    if !is_err {
+                        return Some(("raw_access_out_of_allocation", format!("realloc #{i} r:{old}:{new} was refused but the op did not return Err")));
+                    }
+                }
+                if *new as i64 > cap && ok {
+                    return Some(("raw_access_out_of_allocation", format!("realloc #{i} beyond orig+10240 succeeded")));
+                }
+            }
+            Acc::Move { dst, src, n } => {
+                let n = *n as i64;
+                if *dst < 0 || *src < 0 || dst + n > cap || src + n > cap {
+                    return Some(("raw_access_out_of_allocation", format!("move #{i} m:{dst}:{src}:{n} leaves [0, {cap}]")));
+                }
+                if n > 0 && dst + n > owned {
+                    return Some(("write_outside_owned_range", format!("move #{i} m:{dst}:{src}:{n} writes beyond max(len_before, len_after) = {owned}")));
+                }
+                if n > 0 && dst + n > cur as i64 {
+                    return Some(("write_outside_owned_range", format!("move #{i} m:{dst}:{src}:{n} writes beyond the data length at that moment ({cur})")));
+                }
+            }
+        }
+    }
+    None
+}
+
 fn answer(prop: Prop, out: &Out, obs: &Obs) -> String {
     let (oc, ret) = match out {
         Out::Ok(r) => ("ok".to_string(), r.clone()),
@@ -184,6 +268,9 @@ fn answer(prop: Prop, out: &Out, obs: &Obs) -> String {
     };
     if prop == Prop::C02 {
         return format!("{oc} len={} bytes={}", obs.len, hex(&obs.bytes));
+    }
+    if prop == Prop::C03 {
+        return format!("{oc} len={}", obs.len);
     }
     let live: Vec<String> = obs.live.iter().map(vstr).collect();
     format!(
@@ -214,7 +301,7 @@ fn sorted_ok(shape: &Shape, v: &Val) -> bool {
     }
 }
 
-fn serialize<T: Node + ?Sized>(v: &Val) -> Result<(Vec<u8>, usize), String> {
+pub fn serialize<T: Node + ?Sized>(v: &Val) -> Result<(Vec<u8>, usize), String> {
     let owned = T::val_to_owned(v).ok_or("model value not convertible")?;
     let size = T::byte_size(&owned);
     let mut buf = vec![0xA5u8; size];
@@ -344,7 +431,11 @@ pub fn run_case<T: Node + ?Sized>(header_line: &str, hdr: &Header, src: &mut dyn
         }
         return out;
     };
-    let access_box = Box::new(Access::new(&bytes, hdr.refuse.clone()));
+    let access_box = Box::new(if prop == Prop::C03 {
+        Access::new_guard(&bytes, hdr.refuse.clone(), hdr.end_aligned)
+    } else {
+        Access::new(&bytes, hdr.refuse.clone())
+    });
     // SAFETY: every accessor (the `stack`) is dropped before `access_box` at the end of this function.
     let access: &'static Access = unsafe { &*(&*access_box as *const Access) };
     let mut stack: Vec<Box<dyn Level>> = vec![];
@@ -367,6 +458,7 @@ pub fn run_case<T: Node + ?Sized>(header_line: &str, hdr: &Header, src: &mut dyn
         orc.check_state::<T>(&obs, &levels, access);
     }
     let cap = access.cap();
+    out.states.push((orc.model.clone(), vec![]));
     let mut nontrivial = false;
     let mut ops_done = 0usize;
 
@@ -437,6 +529,10 @@ pub fn run_case<T: Node + ?Sized>(header_line: &str, hdr: &Header, src: &mut dyn
         // ---- run the real code
         let pre_bytes = access.bytes();
         access.begin_op();
+        let snap = if prop == Prop::C03 { Some(access.snapshot()) } else { None };
+        if prop == Prop::C03 {
+            start_trace();
+        }
         let exec = catch(|| -> Out {
             match &plan {
                 Plan::Enter(s, _) => match stack.last_mut().unwrap().enter(*s) {
@@ -463,6 +559,7 @@ pub fn run_case<T: Node + ?Sized>(header_line: &str, hdr: &Header, src: &mut dyn
                 Plan::Apply(_) => stack.last_mut().unwrap().exec(&ol.path, &ol.op),
             }
         });
+        let trace = if prop == Prop::C03 { take_trace(access.base_addr()) } else { vec![] };
         let impl_out = match exec {
             Ok(o) => o,
             Err(msg) => {
@@ -499,8 +596,20 @@ pub fn run_case<T: Node + ?Sized>(header_line: &str, hdr: &Header, src: &mut dyn
 
         // ---- observe + answer
         let obs = observe::<T>(access, &stack);
-        let ans = answer(prop, &impl_out, &obs);
+        let mut ans = answer(prop, &impl_out, &obs);
+        let mut c03_violation = None;
+        if let Some(snap) = &snap {
+            let frame = access.frame_ok(snap, pre_bytes.len().max(obs.len));
+            ans.push_str(&format!(" acc={} frame={}", acc_str(&trace), frame as u8));
+            c03_violation = check_trace(&trace, access, pre_bytes.len(), obs.len, matches!(impl_out, Out::Err(_)));
+            if c03_violation.is_none() && !frame {
+                c03_violation = Some(("frame_modified", format!("`{line}`: bytes outside [0, max(len_before, len_after)) or in the neighbouring slack changed")));
+            }
+        }
         orc.cx.rec.op(&line, &ans);
+        if let Some((class, detail)) = c03_violation {
+            orc.fail(class, format!("`{line}`: {detail}"));
+        }
         match &impl_out {
             Out::Ok(_) => orc.cx.rec.bump("outcome:ok"),
             Out::Err(c) => orc.cx.rec.bump(&format!("outcome:err:{c}")),
@@ -590,8 +699,18 @@ pub fn run_case<T: Node + ?Sized>(header_line: &str, hdr: &Header, src: &mut dyn
             _ => {}
         }
         orc.check_state::<T>(&obs, &levels, access);
+        while out.states.len() < out.lines.len() - 1 {
+            // lines answered without executing (bad-op / dead) keep the previous state
+            let last = out.states.last().unwrap().clone();
+            out.states.push(last);
+        }
+        out.states.push((orc.model.clone(), levels.last().unwrap().clone()));
     }
 
+    while out.states.len() < out.lines.len() {
+        let last = out.states.last().unwrap().clone();
+        out.states.push(last);
+    }
     // ---- end of case: drop accessors innermost first (top drop check runs), then re-parse
     let drop_res = catch(|| {
         while let Some(l) = stack.pop() {
